@@ -1,8 +1,152 @@
 import PyPhysim.Model.Proto
-open PyPhysim.Proto
+import PyPhysim.Model.C02
+import PyPhysim.Generated.OfdmIndex
+open PyPhysim.Proto PyPhysim.C02
 
--- stub: replaced when the C02 model is written
+/-- binary64 complex numbers for the numeric runs -/
+structure Cx where
+  re : Float
+  im : Float
+
+instance : Add Cx := ⟨fun a b => ⟨a.re + b.re, a.im + b.im⟩⟩
+instance : Mul Cx := ⟨fun a b => ⟨a.re * b.re - a.im * b.im, a.re * b.im + a.im * b.re⟩⟩
+instance : Div Cx := ⟨fun a b =>
+  let d := b.re * b.re + b.im * b.im
+  ⟨(a.re * b.re + a.im * b.im) / d, (a.im * b.re - a.re * b.im) / d⟩⟩
+instance : Zero Cx := ⟨⟨0, 0⟩⟩
+instance : NatCast Cx := ⟨fun n => ⟨Float.ofNat n, 0⟩⟩
+instance : NatCast Float := ⟨Float.ofNat⟩
+
+def twoPi : Float := 6.283185307179586
+
+/-- `exp(sign·2πi·m/n)` (argument reduced mod `n` first) -/
+def twid (n : Nat) (sign : Float) (m : Nat) : Cx :=
+  let a := sign * twoPi * (Float.ofNat (m % n)) / (Float.ofNat n)
+  ⟨Float.cos a, Float.sin a⟩
+
+def fftF (n : Nat) (a : List Cx) : List Cx := dft (twid n (-1.0)) n a
+def ifftF (n : Nat) (a : List Cx) : List Cx := idft (twid n 1.0) n a
+
+def cxList? (s : String) : Option (List Cx) :=
+  let rec go : List Float → Option (List Cx)
+    | [] => some []
+    | a :: b :: t => (go t).map (fun r => ⟨a, b⟩ :: r)
+    | _ => none
+  if s = "-" then some [] else parseFloatList? s >>= go
+
+def showCx (l : List Cx) : String :=
+  if l.isEmpty then "-" else showList (fun c => showFloat c.re ++ "," ++ showFloat c.im) l
+
+def showE {α} (f : α → String) : Except PyErr α → String
+  | .ok v => f v
+  | .error e => "error:" ++ toString e
+
+def natList? (s : String) : Option (List Nat) := if s = "-" then some [] else parseNatList? s
+def showNats (l : List Nat) : String := if l.isEmpty then "-" else showList toString l
+def showInts (l : List Int) : String := if l.isEmpty then "-" else showList toString l
+
+def optInt? (s : String) : Option (Option Int) :=
+  if s = "none" then some none else s.toInt?.map some
+
+def params? (f c u : String) : Option Params := do
+  some ⟨← f.toNat?, ← c.toNat?, ← u.toNat?⟩
+
+def tokens (n : Nat) : List Int := (List.range n).map (fun i => Int.ofNat (i + 1))
+
+def op? (s : String) : Option (Int × Int × Option Int) :=
+  match s.splitOn ":" with
+  | [f, c, u] => do some (← f.toInt?, ← c.toInt?, ← optInt? u)
+  | _ => none
+
+/-- build an impulse response from `delays ns vals` (vals row-major `taps × ns`) -/
+def ir? (d ns v : String) : Option (ImpulseResponse Cx) := do
+  let d ← natList? d
+  let ns ← ns.toNat?
+  let v ← cxList? v
+  if v.length ≠ d.length * ns then none
+  else some ⟨d, rows ns d.length v, ns⟩
+
 def handle : List String → String
+  | ["params", f, c, u] =>
+    match f.toInt?, c.toInt?, optInt? u with
+    | some f, some c, some u =>
+      showE (fun p => s!"ok {p.fft} {p.cp} {p.used}") (setParameters f c u)
+    | _, _, _ => "bad-op"
+  | ["hist", f, c, u, ops] =>
+    match params? f c u, (fields ops ";").mapM op? with
+    | some p0, some ops =>
+      let (p, flags) := ops.foldl (fun (acc : Params × String) op =>
+        let r := step acc.1 op
+        (r.1, acc.2 ++ (match r.2 with | none => "0" | some _ => "1"))) (p0, "")
+      s!"{p.fft} {p.cp} {p.used} {flags}"
+    | _, _ => "bad-op"
+  | ["idx", f, u] =>
+    match f.toNat?, u.toNat? with
+    | some f, some u => showNats (usedIdx f u)
+    | _, _ => "bad-op"
+  | ["gidx", f, u] =>       -- the definitions regenerated from the source
+    match f.toInt?, u.toInt? with
+    | some f, some u => showInts (PyPhysim.Generated.C02.get_used_subcarrier_indexes f u)
+    | _, _ => "bad-op"
+  | ["gnum", f, u] =>
+    match f.toInt?, u.toInt? with
+    | some f, some u => showInts (PyPhysim.Generated.C02.get_used_subcarrier_numbers f u)
+    | _, _ => "bad-op"
+  | ["gzeropad", u, n] =>
+    match u.toInt?, n.toInt? with
+    | some u, some n =>
+      let r := PyPhysim.Generated.C02.calc_zeropad u n
+      s!"{r.1} {r.2}"
+    | _, _ => "bad-op"
+  | ["zeropad", u, n] =>
+    match u.toNat?, n.toNat? with
+    | some u, some n => let p : Params := ⟨u, 0, u⟩; s!"{zeropad p n} {numSymbols p n}"
+    | _, _ => "bad-op"
+  | ["prep", f, c, u, n] =>
+    match params? f c u, n.toNat? with
+    | some p, some n => showInts (prepare p (tokens n)).flatten
+    | _, _ => "bad-op"
+  | ["addcp", c, f, r] =>
+    match c.toNat?, f.toNat?, r.toNat? with
+    | some c, some f, some r => showInts ((rows f r (tokens (r * f))).map (addCP c)).flatten
+    | _, _, _ => "bad-op"
+  | ["rmcp", f, c, len] =>
+    match params? f c "2", len.toNat? with
+    | some p, some len => showE (fun (r : List (List Int)) => showInts r.flatten) (removeCP p (tokens len))
+    | _, _ => "bad-op"
+  | ["unprep", f, u, r] =>
+    match params? f "0" u, r.toNat? with
+    | some p, some r => showE showInts (unprepare p (rows p.fft r (tokens (r * p.fft))))
+    | _, _ => "bad-op"
+  | ["mod", f, c, u, s, x] =>        -- `s` = the implementation's `math.sqrt(power_scale)`
+    match params? f c u, parseFloat? s, cxList? x with
+    | some p, some s, some x => showCx (modulate ifftF ⟨s, 0⟩ p x)
+    | _, _, _ => "bad-op"
+  | ["demod", f, c, u, s, y] =>
+    match params? f c u, parseFloat? s, cxList? y with
+    | some p, some s, some y => showE showCx (demodulate fftF ⟨s, 0⟩ p y)
+    | _, _, _ => "bad-op"
+  | ["gscale", f, c, u] =>          -- `_calculate_power_scale` as regenerated from the source, at binary64
+    match f.toNat?, c.toNat?, u.toNat? with
+    | some f, some c, some u => showFloat (PyPhysim.Generated.C02.calculate_power_scale (α := Float) f c u)
+    | _, _, _ => "bad-op"
+  | ["corrupt", d, ns, v, x] =>
+    match ir? d ns v, cxList? x with
+    | some ir, some x => showE showCx (corrupt ir x)
+    | _, _ => "bad-op"
+  | ["freq", f, d, ns, v] =>      -- column-major: sample 0's response, then sample 1's, …
+    match f.toNat?, ir? d ns v with
+    | some f, some ir =>
+      showE (fun (H : List (List Cx)) => showCx H.flatten) ((List.range ir.ns).mapM (freqResponse fftF f ir))
+    | _, _ => "bad-op"
+  | ["eq", f, c, u, d, ns, v, data] =>
+    match params? f c u, ir? d ns v, cxList? data with
+    | some p, some ir, some data => showE showCx (equalize fftF p data ir)
+    | _, _, _ => "bad-op"
+  | ["e2e", f, c, u, s, d, ns, v, tx] =>
+    match params? f c u, parseFloat? s, ir? d ns v, cxList? tx with
+    | some p, some s, some ir, some tx => showE showCx (oneTapReceive fftF ⟨s, 0⟩ p ir tx)
+    | _, _, _, _ => "bad-op"
   | _ => "bad-op"
 
 def main : IO Unit := runDriver handle
